@@ -67,6 +67,9 @@ void vs_point(int kind, const volatile void *addr); /* explicit scheduling point
 void vs_wait(bool (*pred)(void *), void *arg);      /* block until pred holds */
 void vs_atomic_begin(void);                         /* suppress points (nests) */
 void vs_atomic_end(void);
+/* points whose address lies in an ignored range are not scheduling points */
+void vs_ignore_reset(void);
+void vs_ignore_range(const volatile void *addr, size_t len);
 bool vs_tracing(void);
 void vs_trace(const char *fmt, ...);
 /* mark that the current execution is non-trivial by the harness' rule */
